@@ -48,6 +48,14 @@ theorem sinkClose_false (n : Node) : sinkClose false n = snapInstall n := by
 theorem sinkClose_true (n : Node) : sinkClose true n = snapFingerprint (snapInstall n) := by
   simp [sinkClose, snapInstall, snapFingerprint, sinkCloseSteps, List.take, List.foldl, sinkStep]
 
+theorem sinkCloseK_refused (ok : Bool) (n : Node) (h : n.fullNeeded = true) :
+    sinkCloseK .incremental ok n = ({ n with snapTmp := none }, true) := by
+  simp [sinkCloseK, sinkCloseSteps, List.foldl, sinkStepK, sinkRefuses, h]
+
+theorem sinkCloseK_accepted (kind : SnapKind) (ok : Bool) (n : Node) (h : sinkRefuses kind n = false) :
+    sinkCloseK kind ok n = (sinkClose ok n, false) := by
+  simp [sinkCloseK, sinkClose, sinkCloseSteps, List.foldl, sinkStepK, h, sinkStep]
+
 /-- a complete snapshot is: checkpoint, the steps of `Persist`, the steps of `Sink.Close`, compaction -/
 theorem snapshot_is_step_lists (n : Node) (t : Nat) :
     snapshot n t = snapCompact (sinkClose true (persistSteps.foldl (persistStep true) (snapCheckpoint n))) t := by
@@ -222,6 +230,79 @@ theorem attach_disables_boot (n : Node) (self p : Peer) (d : Db) :
   | nil => simp
   | cons a as => simp
 
+theorem config_apply {n : Node} (g : Good n) (op : Op) : (apply n op).config = n.config := by
+  obtain ⟨h, q⟩ := g
+  cases op with
+  | write c => exact (fsmApply_fields (appendEntry n c) c).2.2.2.2.2.2.2.2.2
+  | boot d =>
+    obtain ⟨q1, h1, _⟩ := quiet_write h q .noop
+    have h2 : DurInv { write n .noop with live := d, dbFile := d, fp := false, fullNeeded := true } :=
+      ⟨h1.snap_le, h1.nosnap, fun hf => Bool.noConfusion hf, fun hf => Bool.noConfusion hf⟩
+    have p2 : SnapPre { write n .noop with live := d, dbFile := d, fp := false, fullNeeded := true } :=
+      ⟨q1.up, q1.applied, q1.notmp, q1.fileok, q1.nopeers⟩
+    have := (snapshot_gen h2 p2 1).2.2.2.2.2.2.2.1
+    show (snapshot _ 1).config = n.config
+    rw [this]
+    exact (fsmApply_fields (appendEntry n .noop) .noop).2.2.2.2.2.2.2.2.2
+  | snapshot t => exact (snapshot_spec h q t).2.2.2.2.2.2.2
+  | snapshotAborted => rfl
+  | snapshotNoFingerprint t =>
+    show (snapCompact (sinkClose false (snapPersist (snapCheckpoint n))) t).config = n.config
+    rw [(snapCompact_fields _ t).2.2.2.2.1, sinkClose_false, snapInstall_eq (midSnap_persist q.snapPre)]; rfl
+  | restart =>
+    exact (open_truth (durInv_crash h) (by show n.peersFile = none; exact q.nopeers)).2.2.2.2.2
+
+/-- in a schedule no server is ever attached: the configuration stays the bootstrap one … -/
+theorem config_run (ops : List Op) : (run {} ops).config = [] := by
+  have key : ∀ (ops : List Op) (n : Node), Good n → (run n ops).config = n.config := by
+    intro ops
+    induction ops with
+    | nil => intro n _; rfl
+    | cons op ops ih =>
+      intro n g
+      show (run (apply n op) ops).config = n.config
+      rw [ih _ (good_apply g op), config_apply g op]
+  exact key ops {} good_init
+
+/-- … so a boot attempt after any schedule passes the guard: the `.boot` of a schedule is `bootR`'s
+accepted branch (this is the "therefore" of the section's heading) -/
+theorem schedule_boot_is_guarded_boot (ops : List Op) (d : Db) :
+    bootR (run {} ops) d = (boot (run {} ops) d, false) := by
+  apply boot_accepted_when_single_node
+  simp [clusterSize, config_run]
+
+/-- an invalid load changes nothing but the log entry and the full-snapshot requirement — on the
+node, and for every node that joins afterwards -/
+theorem invalid_load_changes_only_log_and_requirement {n : Node} (g : Good n) :
+    (write n .loadBad).fullNeeded = true ∧ (write n .loadBad).hist = n.hist ++ [.loadBad] ∧
+    (joinFrom (write n .loadBad)).live = (joinFrom n).live := by
+  refine ⟨rfl, rfl, ?_⟩
+  have h1 : (joinFrom (write n .loadBad)).live = (write n .loadBad).live :=
+    (join_gets_leader_db (n := write n .loadBad) (good_apply g (.write .loadBad))).1
+  rw [h1, (join_gets_leader_db g).1]
+  exact live_apply g (.write .loadBad)
+
+/-- **load_during_incremental_snapshot_end_to_end**: checkpoint of an incremental snapshot; a LOAD
+is applied; the snapshot is persisted and reaches `Sink.Close`, which READS the requirement and
+refuses it; the node crashes and reopens: it holds the loaded database (the refused snapshot —
+whose content predates the load — was never installed). -/
+theorem load_during_incremental_snapshot_end_to_end {n : Node} (g : Good n) (d : Db) (ok : Bool) :
+    let m := snapPersist (write (snapCheckpoint n) (.load d))
+    (sinkCloseK .incremental ok m).2 = true ∧ (openNode (crash (sinkCloseK .incremental ok m).1)).live = d := by
+  intro m
+  have g1 : Good (snapCheckpoint n) := ⟨durInv_snapCheckpoint g.1, (quiet_snapCheckpoint g.2).1⟩
+  have g2 : Good (write (snapCheckpoint n) (.load d)) := good_apply g1 (.write (.load d))
+  have hl : (write (snapCheckpoint n) (.load d)).live = d := live_apply g1 (.write (.load d))
+  have hfn : m.fullNeeded = true := by simp [m, snapPersist_eq]; rfl
+  have hr : sinkCloseK .incremental ok m = ({ m with snapTmp := none }, true) := sinkCloseK_refused ok m hfn
+  rw [hr]
+  refine ⟨rfl, ?_⟩
+  have hd : DurInv (crash { m with snapTmp := none }) :=
+    ⟨g2.1.snap_le, g2.1.nosnap, g2.1.fp_ok, g2.1.fp_le⟩
+  rw [(open_truth hd (by show (write (snapCheckpoint n) (.load d)).peersFile = none; exact g2.2.nopeers)).1]
+  show truth (write (snapCheckpoint n) (.load d)) = d
+  rw [← g2.2.live]; exact hl
+
 /-- **boot_with_member_attached_witness**: why the guard must count EVERY server. Were a boot
 accepted with a caught-up member attached, that member would get the boot's NOOP entry, be at
 the leader's last index (raft has nothing more to send, no snapshot is transferred) and keep
@@ -288,14 +369,17 @@ theorem load_forces_full_snapshot (n : Node) (d : Db) (ok : Bool) :
      sinkCloseK .full ok m = (sinkClose ok m, false) ∧
      snapKindDue (sinkCloseK .full ok m).1 = .incremental) := by
   refine ⟨rfl, ?_⟩
-  cases ok <;>
-    simp [sinkCloseK, sinkRefuses, snapPersist, persistSteps, persistStep, List.foldl, write, fsmApply, appendEntry,
-      swapRun, swapSteps, swapStep, snapCheckpoint, snapKindDue, sinkClose, sinkCloseSteps, sinkStep]
+  intro m
+  have hfn : m.fullNeeded = true := by simp [m, snapPersist_eq]; rfl
+  rw [sinkCloseK_refused ok m hfn, sinkCloseK_accepted .full ok m (by simp [sinkRefuses])]
+  refine ⟨rfl, ?_, hfn, rfl, ?_⟩
+  · simp [m, snapPersist_eq]; rfl
+  · cases ok <;> simp [snapKindDue, sinkClose, sinkCloseSteps, List.foldl, sinkStep]
 
 /-- without a load no full snapshot is due: incremental snapshots are accepted -/
 theorem incremental_accepted_without_load (n : Node) (h : n.fullNeeded = false) (ok : Bool) :
     snapKindDue n = .incremental ∧ sinkCloseK .incremental ok n = (sinkClose ok n, false) := by
-  simp [snapKindDue, sinkCloseK, sinkRefuses, h]
+  exact ⟨by simp [snapKindDue, h], sinkCloseK_accepted .incremental ok n (by simp [sinkRefuses, h])⟩
 
 /-- **boot_then_snapshot**: a boot ends with the booted database live, installed as the
 newest snapshot at the last index, and it is what a restart on either path produces -/
